@@ -119,6 +119,16 @@ class Result:
             self.violations.append(v)
         return v
 
+    def oracle_disagreement(self, description):
+        """The reference model and the real tool disagree on a case the tool accepts
+        silently: the case decides nothing (it is dropped, counted and shown in the
+        evidence).  run_check turns a *large* number of them into exit 2."""
+        self.extra["oracle_disagreements"] = self.extra.get("oracle_disagreements", 0) + 1
+        self.discarded["model-and-tool-disagree (case dropped)"] += 1
+        lst = self.extra.setdefault("oracle_disagreement_samples", [])
+        if len(lst) < 5:
+            lst.append(str(description)[:600])
+
     def merge(self, other: "Result"):
         self.evaluations += other.evaluations
         self.nontrivial |= other.nontrivial
@@ -137,6 +147,8 @@ class Result:
         for k, v in other.extra.items():
             if isinstance(v, (int, float)) and isinstance(self.extra.get(k, 0), (int, float)):
                 self.extra[k] = self.extra.get(k, 0) + v
+            elif isinstance(v, list) and isinstance(self.extra.get(k, []), list) and k.endswith("_samples"):
+                self.extra[k] = (self.extra.get(k, []) + v)[:5]
             else:
                 self.extra.setdefault(k, v)
         if other.exhaustive is not None:
